@@ -10,7 +10,9 @@
 package pbcmpl
 
 import (
+	"bytes"
 	"io"
+	"math"
 
 	"github.com/openacid/errors"
 
@@ -119,6 +121,12 @@ func Unmarshal(r io.Reader, msg proto.Message) (int64, string, error) {
 		return n, ver, errors.WithStack(ErrInvalidHeaderSize)
 	}
 
+	if sz := hi.GetBodySize(); sz < 0 || sz > maxEagerBody {
+		// The declared size cannot be trusted for allocation: it may exceed the
+		// stream, the address space, or be negative as an int64.
+		return unmarshalUntrusted(r, msg, n, ver, sz)
+	}
+
 	b := make([]byte, hi.GetBodySize())
 	nbody, err := io.ReadFull(r, b)
 	n += int64(nbody)
@@ -127,6 +135,32 @@ func Unmarshal(r io.Reader, msg proto.Message) (int64, string, error) {
 	}
 
 	err = proto.Unmarshal(b, msg)
+	return n, ver, errors.WithStack(err)
+}
+
+// maxEagerBody is the largest body size that is allocated before reading.
+const maxEagerBody = 1 << 20
+
+// unmarshalUntrusted reads a body whose declared size is too large, or invalid,
+// to allocate up front: the buffer grows only with the bytes actually read.
+// Errors are reported as io.ReadFull would.
+func unmarshalUntrusted(r io.Reader, msg proto.Message, n int64, ver string, size int64) (int64, string, error) {
+	if size < 0 {
+		// a uint64 size >= 2^63: longer than any stream
+		size = math.MaxInt64
+	}
+
+	buf := &bytes.Buffer{}
+	nbody, err := io.CopyN(buf, r, size)
+	n += nbody
+	if err == io.EOF && nbody > 0 {
+		err = io.ErrUnexpectedEOF
+	}
+	if err != nil {
+		return n, ver, errors.WithStack(err)
+	}
+
+	err = proto.Unmarshal(buf.Bytes(), msg)
 	return n, ver, errors.WithStack(err)
 }
 
